@@ -3,7 +3,7 @@ use crate::rng::Rng;
 use crate::universe::*;
 
 #[derive(Clone, Copy, PartialEq, Eq, Debug)]
-pub enum Kind { General, Soft, ConflictFree, Hints, Tight, Lazy }
+pub enum Kind { General, Soft, ConflictFree, Hints, Tight, Lazy, CycleMerge, SoftBackjump }
 
 pub struct Generated { pub u: Universe, pub p: Problem }
 
@@ -21,15 +21,137 @@ fn subset(rng: &mut Rng, xs: &[u32], style: u64) -> Vec<u32> {
 
 pub fn generate(rng: &mut Rng, kind: Kind) -> Generated { generate_opts(rng, kind, false) }
 
+/// Conflicts whose graph has a `requires` cycle through merge groups: a ring of 2-3 packages whose versions all share
+/// one dependency list (next ring member + an extra that may be impossible), entered from different versions of a top
+/// package, with leaf packages whose version sets exclude each other. The renderer's `reported` bookkeeping, the
+/// graph simplification and analyze_unsolvable's cycle handling are the target.
+pub fn generate_cycle_merge(rng: &mut Rng) -> Generated {
+    let mut u = Universe::default();
+    let mut next_s = 0u32;
+    let mut next_v = 0u32;
+    let ring = rng.range(2, 3) as usize;
+    let n_leaf = rng.range(1, 2) as usize;
+    // names: 0 = top, 1..=ring = ring members, then leaves, then a middle package `d`
+    let leaf0 = 1 + ring;
+    let d_name = (leaf0 + n_leaf) as u32;
+    let mut cands: Vec<Vec<u32>> = Vec::new();
+    let sizes: Vec<usize> = (0..=d_name as usize).map(|n| if n == 0 { rng.range(2, 3) as usize } else if n <= ring { rng.range(1, 3).max(rng.range(1, 3)) as usize } else { rng.range(1, 3) as usize }).collect();
+    for sz in &sizes { cands.push((0..*sz).map(|_| { let s = next_s; next_s += 1; s }).collect()); }
+    let mut any_vs = Vec::new();
+    let mut one_vs: Vec<Vec<u32>> = Vec::new();
+    for (n, cs) in cands.iter().enumerate() {
+        u.vsets.insert(next_v, VSet { name: n as u32, matching: cs.clone() }); any_vs.push(next_v); next_v += 1;
+        let mut ones = Vec::new();
+        for &c in cs { u.vsets.insert(next_v, VSet { name: n as u32, matching: vec![c] }); ones.push(next_v); next_v += 1; }
+        one_vs.push(ones);
+    }
+    let leaf_vs = |rng: &mut Rng| -> u32 { let l = leaf0 + rng.below(n_leaf as u64) as usize; if rng.chance(3, 4) { *rng.pick(&one_vs[l]) } else { any_vs[l] } };
+    for (n, cs) in cands.iter().enumerate() {
+        let shared: Vec<Req> = if n == 0 { vec![] } else if n <= ring {
+            let next = 1 + (n % ring);
+            let mut r = vec![Req::Single(any_vs[next])];
+            match rng.below(4) { 0 => {} 1 => r.push(Req::Single(any_vs[d_name as usize])), _ => r.push(Req::Single(leaf_vs(rng))) }
+            if rng.chance(1, 2) { r.reverse(); }
+            r
+        } else if n as u32 == d_name { vec![Req::Single(leaf_vs(rng))] } else { vec![] };
+        for (i, &c) in cs.iter().enumerate() {
+            let reqs = if n == 0 { vec![Req::Single(any_vs[1 + rng.below(ring as u64) as usize])] }
+                else if n <= ring && i > 0 && rng.chance(1, 6) { vec![Req::Single(any_vs[1 + (n % ring)])] } // an unmerged sibling now and then
+                else if n as u32 == d_name && rng.chance(1, 2) { vec![Req::Single(leaf_vs(rng))] }
+                else { shared.clone() };
+            let cons = if n > ring && rng.chance(1, 6) { vec![leaf_vs(rng)] } else { vec![] };
+            u.solvs.insert(c, Solv { name: n as u32, rank: i as u32, deps: Deps::Known { reqs, cons } });
+        }
+        let hint = match rng.below(4) { 0 => Hint::All, _ => Hint::None };
+        u.pkgs.insert(n as u32, Pkg { cands: cs.clone(), hint, ..Default::default() });
+    }
+    let mut p = Problem::default();
+    p.reqs.push(Req::Single(any_vs[0]));
+    if rng.chance(1, 4) { p.reqs.push(Req::Single(leaf_vs(rng))); }
+    if rng.chance(1, 6) { p.cons.push(leaf_vs(rng)); }
+    Generated { u, p }
+}
+
+/// Soft requirements whose run learns a clause made of level-1 facts only (an excluded / locked-out candidate) and
+/// therefore wants to backjump *below* the level the soft run started from, after which the hard requirements are
+/// re-decided in another order (the learnt clause bumped a package's activity) and may select candidates that were
+/// never part of a partial solution before (never encoded), some of which are uninstallable.
+pub fn generate_soft_backjump(rng: &mut Rng) -> Generated {
+    let mut u = Universe::default();
+    let mut next_s = 0u32;
+    let mut next_v = 0u32;
+    // names: 0 = a, 1 = b, 2 = x (required by the soft solvable), 3 = s (soft), 4.. = leaves, last+1 = never provided
+    let n_leaf = rng.range(1, 2) as usize;
+    let n_names = 4 + n_leaf;
+    let missing_name = n_names as u32;
+    let sizes: Vec<usize> = (0..n_names).map(|n| match n { 0 => rng.range(2, 4) as usize, 1 => rng.range(2, 4) as usize, 2 => rng.range(1, 3) as usize, 3 => 1, _ => rng.range(1, 2) as usize }).collect();
+    let mut cands: Vec<Vec<u32>> = Vec::new();
+    for sz in &sizes { cands.push((0..*sz).map(|_| { let s = next_s; next_s += 1; s }).collect()); }
+    let mut any_vs = Vec::new();
+    let mut one_vs: Vec<Vec<u32>> = Vec::new();
+    for (n, cs) in cands.iter().enumerate() {
+        u.vsets.insert(next_v, VSet { name: n as u32, matching: cs.clone() }); any_vs.push(next_v); next_v += 1;
+        let mut ones = Vec::new();
+        for &c in cs { u.vsets.insert(next_v, VSet { name: n as u32, matching: vec![c] }); ones.push(next_v); next_v += 1; }
+        one_vs.push(ones);
+    }
+    // version sets of b: "all but the best", "the worst only"
+    let b = &cands[1];
+    let b_low = next_v; u.vsets.insert(next_v, VSet { name: 1, matching: b[1..].to_vec() }); next_v += 1;
+    let b_worst = *one_vs[1].last().unwrap();
+    let nothing = next_v; u.vsets.insert(next_v, VSet { name: missing_name, matching: vec![] }); next_v += 1;
+    let empty_leaf = next_v; u.vsets.insert(next_v, VSet { name: 4, matching: vec![] });
+    let unsat_req = |rng: &mut Rng| -> Req { match rng.below(3) { 0 => Req::Single(nothing), 1 => Req::Single(empty_leaf), _ => Req::Single(any_vs[4 + rng.below(n_leaf as u64) as usize]) } };
+    for (n, cs) in cands.iter().enumerate() {
+        for (i, &c) in cs.iter().enumerate() {
+            let last = i + 1 == cs.len();
+            let (reqs, cons): (Vec<Req>, Vec<u32>) = match n {
+                // a: the better versions forbid the best b; the worst a needs something that may not exist
+                0 => if !last { (vec![], if rng.chance(5, 6) { vec![b_low] } else { vec![] }) } else { (vec![unsat_req(rng)], vec![]) },
+                1 => (vec![], vec![]),
+                // x: the best version needs the excluded / worst b
+                2 => if i == 0 { (vec![Req::Single(if rng.chance(3, 4) { b_worst } else { b_low })], vec![]) } else if rng.chance(1, 3) { (vec![unsat_req(rng)], vec![]) } else { (vec![], vec![]) },
+                3 => (vec![Req::Single(any_vs[2])], vec![]),
+                _ => (if rng.chance(1, 3) { vec![unsat_req(rng)] } else { vec![] }, vec![]),
+            };
+            u.solvs.insert(c, Solv { name: n as u32, rank: i as u32, deps: Deps::Known { reqs, cons } });
+        }
+        let mut p = Pkg { cands: cs.clone(), ..Default::default() };
+        if n == 1 {
+            // the worst b cannot be installed: excluded, or locked out
+            if rng.chance(2, 3) { p.excluded.push((*cs.last().unwrap(), 0)); } else if cs.len() > 2 { p.locked = Some(cs[rng.below(cs.len() as u64 - 1) as usize]); } else { p.excluded.push((*cs.last().unwrap(), 1)); }
+        }
+        u.pkgs.insert(n as u32, p);
+    }
+    let mut p = Problem::default();
+    p.reqs.push(Req::Single(any_vs[0]));
+    p.reqs.push(Req::Single(any_vs[1]));
+    if rng.chance(1, 2) { p.reqs.reverse(); }
+    p.soft.push(cands[3][0]);
+    if rng.chance(1, 3) { p.soft.push(*rng.pick(&cands[2])); }
+    if rng.chance(1, 3) { p.soft.insert(0, *rng.pick(&cands[4])); }
+    Generated { u, p }
+}
+
 pub fn generate_opts(rng: &mut Rng, kind: Kind, force_sparse: bool) -> Generated {
+    if kind == Kind::CycleMerge { return generate_cycle_merge(rng); }
+    if kind == Kind::SoftBackjump || (kind == Kind::Soft && rng.chance(1, 6)) { return generate_soft_backjump(rng); }
     // the soft family alternates between general and tight (conflict-heavy) universes
     let soft = kind == Kind::Soft;
     // the lazy family: no availability hints at all, more locks and constrains (C09's setting)
     let lazy = kind == Kind::Lazy;
     let kind = if lazy { if rng.chance(1, 2) { Kind::General } else { Kind::Tight } } else { kind };
     let kind = if soft && rng.chance(1, 2) { Kind::Tight } else { kind };
+    // the hints family: half of the universes are tight and constrains-heavy, so that hinted candidates are
+    // often false (by propagation) when a requirement first reveals them, and selected later after backtracking
+    let hints = kind == Kind::Hints;
+    let hint_tight = hints && rng.chance(1, 2);
+    let kind = if hint_tight { Kind::Tight } else { kind };
     let n_names = match kind { Kind::Tight => rng.range(3, 6), _ => rng.range(1, 8) } as u32;
     let sparse = force_sparse || rng.chance(1, 6);
+    // 1/5 of the universes are "clone heavy": most candidates of a package share one dependency list and requirements
+    // point upwards as often as downwards, so conflicts contain cycles all of whose nodes are merge groups
+    let clone_heavy = kind != Kind::ConflictFree && rng.chance(1, 5);
     // --- solvable ids
     let mut cands_per_name: Vec<usize> = (0..n_names).map(|_| {
         if kind == Kind::Tight { rng.range(2, 5) as usize } else if rng.chance(1, 8) { rng.range(5, 9) as usize } else { rng.range(1, 4) as usize }
@@ -86,7 +208,7 @@ pub fn generate_opts(rng: &mut Rng, kind: Kind, force_sparse: bool) -> Generated
     let pick_req = |rng: &mut Rng, from_name: usize, u: &Universe| -> Req {
         if !union_ids.is_empty() && rng.chance(1, 6) { return Req::Union(*rng.pick(&union_ids)); }
         // mostly "downward" (higher-numbered names) to keep a DAG, sometimes anything (cycles)
-        let n = if rng.chance(4, 5) && from_name + 1 < n_names as usize { rng.range(from_name as u64 + 1, n_names as u64 - 1) as usize } else { rng.below(n_names as u64) as usize };
+        let n = if rng.chance(if clone_heavy { 2 } else { 4 }, 5) && from_name + 1 < n_names as usize { rng.range(from_name as u64 + 1, n_names as u64 - 1) as usize } else { rng.below(n_names as u64) as usize };
         let _ = u;
         Req::Single(*rng.pick(&vs_of_name[n]))
     };
@@ -94,10 +216,13 @@ pub fn generate_opts(rng: &mut Rng, kind: Kind, force_sparse: bool) -> Generated
         let mut ranks: Vec<u32> = (0..by_name[n].len() as u32).collect();
         rng.shuffle(&mut ranks);
         for (i, &s) in by_name[n].iter().enumerate() {
-            let deps = if kind != Kind::ConflictFree && rng.chance(1, 25) { Deps::Unknown(rng.below(3) as u32) } else {
+            // merge groups: a candidate often has exactly the dependencies of its predecessor (the conflict
+            // graph merges such siblings; cycles through merged nodes are the renderer's hard case)
+            let deps = if i > 0 && kind != Kind::ConflictFree && rng.chance(if clone_heavy { 3 } else { 1 }, 4) { u.solvs[&by_name[n][i - 1]].deps.clone() }
+            else if kind != Kind::ConflictFree && rng.chance(1, 25) { Deps::Unknown(rng.below(3) as u32) } else {
                 let n_reqs = if kind == Kind::Tight { rng.range(1, 3) } else { *rng.pick(&[0u64, 0, 1, 1, 1, 2, 2, 3]) };
                 let reqs: Vec<Req> = (0..n_reqs).map(|_| pick_req(rng, n, &u)).collect();
-                let n_cons = if rng.chance(1, if lazy { 2 } else { 4 }) { rng.range(1, 2) } else { 0 };
+                let n_cons = if rng.chance(1, if lazy || hint_tight { 2 } else { 4 }) { rng.range(1, 2) } else { 0 };
                 let cons: Vec<u32> = (0..n_cons).map(|_| *rng.pick(&all_vs)).collect();
                 Deps::Known { reqs, cons }
             };
@@ -115,7 +240,7 @@ pub fn generate_opts(rng: &mut Rng, kind: Kind, force_sparse: bool) -> Generated
             if rng.chance(1, if lazy { 4 } else { 12 }) { p.locked = Some(*rng.pick(&by_name[n])); }
             if rng.chance(1, 9) { for _ in 0..rng.range(1, 2) { let e = *rng.pick(&by_name[n]); if !p.excluded.iter().any(|x| x.0 == e) { p.excluded.push((e, rng.below(3) as u32)); } } }
         }
-        let hint_roll = if lazy || (kind == Kind::ConflictFree && rng.chance(1, 2)) { 0 } else if kind == Kind::Hints { rng.range(1, 2) } else { rng.below(5) };
+        let hint_roll = if lazy || (kind == Kind::ConflictFree && rng.chance(1, 2)) { 0 } else if hints { rng.range(1, 2) } else { rng.below(5) };
         p.hint = match hint_roll { 1 => Hint::All, 2 => Hint::Some(by_name[n].iter().copied().filter(|_| rng.chance(1, 2)).collect()), _ => Hint::None };
         u.pkgs.insert(n as u32, p);
     }
@@ -130,7 +255,8 @@ pub fn generate_opts(rng: &mut Rng, kind: Kind, force_sparse: bool) -> Generated
     if soft && rng.chance(1, 2) {
         // an extra package with the highest name id that nothing refers to: its solvables can only enter
         // the problem as directly named soft requirements (their package's candidates are never fetched)
-        let extra_name = n_names;
+        // (with a gap of up to two unused name ids below it: per-name vectors must grow by more than one slot)
+        let extra_name = n_names + rng.below(3) as u32;
         let base = u.solvs.keys().max().copied().unwrap_or(0) + 1;
         let k = rng.range(1, 3) as u32;
         let mut cands = Vec::new();
